@@ -17,7 +17,7 @@ from checks import common
 
 ID = 'C04'
 LEVEL = 'exploration'
-TIERS = {"quick": 30000, "thorough": 2000000}
+TIERS = {"quick": 30000, "thorough": 1200000}
 BUDGET = {'quick': 150, 'thorough': 1500}
 RULE = ('seeded plans: universe descriptor + one abstract value + 2-5 replicas, each with a construction route '
         '(canonical | permuted order | explicit/implicit DEFAULTs | native Python arguments | decode of a BER form | clone of another '
